@@ -9,6 +9,7 @@ package c11
 import (
 	"context"
 	"fmt"
+	"strings"
 
 	extv1 "k8s.io/apiextensions-apiserver/pkg/apis/apiextensions/v1"
 	"k8s.io/apimachinery/pkg/types"
@@ -136,9 +137,6 @@ func reconcileBody(r *explore.Run, rep *report.R) {
 			b.SetUID("rival-xrd-uid")
 			b.SetResourceVersion("")
 			b.Spec.Names = extv1.CustomResourceDefinitionNames{Kind: "XRival", Plural: "xrivals", Singular: "xrival", ListKind: "XRivalList"}
-			for i := range b.Spec.Versions {
-				b.Spec.Versions[i].Schema = nil
-			}
 			s.Seed(b)
 			berr, bp := reconcileOnce(offered.NewReconciler(offered.NewClientApplicator(c)), b.GetName())
 			after := s.Peek(crdKey(name))
@@ -148,6 +146,8 @@ func reconcileBody(r *explore.Run, rep *report.R) {
 				f.add("panic/offered-reconciler", "offered reconciler panicked on a rival XRD: %v", bp)
 			case after == nil || canon(after.Object["spec"]) != canon(before.Object["spec"]) || canon(after.GetOwnerReferences()) != canon(before.GetOwnerReferences()):
 				f.add("reconcile/claim/crd-taken-over-by-another-xrd", "XRD %s offers the claim names of %s; its reconcile rewrote the claim CRD %s that %s controls (owner references %s -> %s)", b.GetName(), d.GetName(), name, d.GetName(), canon(before.GetOwnerReferences()), canon(after.GetOwnerReferences()))
+			case berr != nil && strings.Contains(berr.Error(), "cannot render"):
+				panic(explore.HarnessError{Msg: "rival XRD does not render: " + berr.Error()})
 			case berr == nil:
 				f.add("reconcile/claim/crd-conflict-not-reported", "XRD %s offers the claim names of %s; its reconcile reports no error although the claim CRD belongs to %s", b.GetName(), d.GetName(), d.GetName())
 			}
